@@ -17,18 +17,27 @@ def gen_real_binary(rng):
     sign = rng.randrange(2)
     base = rng.choice([2, 2, 2, 8, 16])
     scale = rng.choice([0, 0, 0, 1, 2, 3])
-    mant = rng.choice([1, 3, 5, 255, 256, 2 ** 24 - 1, 2 ** 32 - 1, 2 ** 32 + 1, 2 ** 52 + 1, 2 ** 53 - 1,
-                       rng.getrandbits(rng.randrange(1, 54)) | 1])
-    exp = rng.choice([0, 1, -1, 2, -2, 10, -10, 127, -128, 128, -129, 300, -300, rng.randrange(-60, 60)])
-    explen = rng.choice([None, None, None, 1, 2, 3, 4]) if -128 <= exp < 128 else rng.choice([None, 2, 3, 4])
-    if explen == 1 and not -128 <= exp < 128:
-        explen = None
+    mant = rng.choice([0, 1, 3, 5, 255, 256, 2 ** 24 - 1, 2 ** 32 - 1, 2 ** 32 + 1, 2 ** 52 + 1, 2 ** 53 - 1, 2 ** 53 + 1,
+                       2 ** 64 - 1, 2 ** 64 + 1, 2 ** 80 + 1, (2 ** 53 + 1) << 20, ((2 ** 53 + 1) << 20) + 1,
+                       rng.getrandbits(rng.randrange(1, 54)) | 1, rng.getrandbits(rng.randrange(54, 100)) | 1])
+    exp = rng.choice([0, 1, -1, 2, -2, 10, -10, 127, -128, 128, -129, 300, -300, 1023, 1024, -1022, -1074, -1075, -1080,
+                      -1130, 2 ** 20, -2 ** 20, rng.randrange(-60, 60), rng.randrange(-1150, 1100)])
+    need = len(ber.int_content(exp))
+    explen = rng.choice([None, None, None] + [k for k in (1, 2, 3, 4, 5) if k >= need])
     enc = ber.REAL_binary(sign, base, scale, exp, mant, explen)
     e2 = scale + exp * {2: 1, 8: 3, 16: 4}[base]
-    try:
-        v = math.ldexp(mant, e2)
-    except OverflowError:
+    from fractions import Fraction
+    if mant == 0:
+        v = 0.0
+    elif e2 > 2200:
         v = float("inf")
+    elif e2 < -2200:
+        v = 0.0
+    else:
+        try:
+            v = float(Fraction(mant) * Fraction(2) ** e2)      # exact, rounded once
+        except OverflowError:
+            v = float("inf")
     return enc, (-v if sign else v)
 
 
